@@ -13,11 +13,13 @@
    holds st y t : the machine's variable y stands for the tree t.
 
    FRAGMENT covered (`frag`, defined in Rc/Cow_proofs.v; notes/C01.md spells it out): arbitrary nesting, arbitrary
-   index paths without slices, all payload kinds (list, dict with/without default, string, vector, bytes, struct
-   instance); statements  x[p] = e,  x[p] f= e  (append ++ + |. -.),  [y[q] =] pop|remove|consume x[p]  (remove
-   also by slice);  expressions  literal, x[p] (also slices), getter closure, [e..], e{k = e'}, call of a function
-   that mutates its parameter.  NOT covered by the theorems (correspondence only): `every` slice assignment, swap,
-   for-loops, the builtins || and |.. .  The full statement is the same with `forallb frag ops = true` dropped. *)
+   index paths, all payload kinds (list, dict with/without default, string, vector, bytes, struct instance);
+   statements  x[p] = e,  every x[p] = e (p with slices),  x[p] f= e  (append ++ + |. -.),
+   [y[q] =] pop|remove|consume x[p]  (remove also by slice),  swap x[p], y[q];  expressions  literal, x[p] (also
+   slices), getter closure, [e..], e{k = e'}, call of a function that mutates its parameter (incl. `every`).
+   Write paths of the non-`every` forms contain no slice (that is todo!() in set_index, finding F11).
+   NOT covered by the theorems (correspondence only): for-loops, the builtins || and |.. .
+   The full statement is the same with `forallb frag ops = true` dropped. *)
 From Coq Require Import ZArith List Bool.
 From NV Require Import Rc.ValueSem Rc.Heap Rc.Cow Rc.Heap_proofs Rc.Cow_proofs Rc.Corollaries_proofs.
 Import ListNotations.
